@@ -32,7 +32,7 @@ BOUND = {
 }
 TIME_CAP = {"quick": 240, "thorough": 3000}
 
-KINDS = ["f8", "i8", "u1", "b1", "str", "U", "D", "us", "ns", "td", "obj"]
+KINDS = ["f8", "f4", "i8", "u1", "b1", "str", "U", "D", "us", "ns", "td", "obj"]
 PAIRS = [("f8", "str"), ("str", "D"), ("D", "f8"), ("i8", "U"), ("b1", "us"), ("obj", "f8"), ("U", "str"), ("us", "i8"), ("f8", "f8"), ("str", "str")]
 
 
@@ -92,7 +92,7 @@ def numeric_payload(n):
 
 
 def decode_value(kind, t):
-    if kind == "f8":
+    if kind in ("f8", "f4"):
         return float(t)
     if kind in ("D", "s", "ms", "us", "ns"):
         return np.datetime64(t)
@@ -128,6 +128,10 @@ def ops_for(cols, full_index):
                                     + [tuple(i - n for i in s) for s in subs]))
     for t in tuples:
         ops.append({"op": "slice", "rows": list(t)})
+    # a position that does not exist (one past either end) is not a position of the frame: refused, not folded back
+    for bad in ([n], [-n - 1], [0, n] if n else [1]):
+        ops.append({"op": "slice", "rows": bad, "reject": True})
+        ops.append({"op": "slice_off", "rows": bad, "reject": True})
     for k in range(0, n + 1):
         for s in itertools.combinations(range(n), k):
             ops.append({"op": "slice_off", "rows": list(s)})
@@ -322,6 +326,18 @@ def check_case(case, rec):
         one = {"cols": cols, "ops": [public]}
         if case.get("grouped"):
             one["grouped"] = True
+        if op.get("reject"):
+            try:
+                out = apply(d, op, n, kinds)
+            except Exception:
+                rec.outcome((op["op"], "rejected"))
+            else:
+                rec.violation(op["op"], "nonexistent-position-accepted", one,
+                              f"rows {op['rows']} of a {n}-row frame: returned {out.nrow} row(s) instead of refusing the position")
+            if V.frame_key(d) != before:
+                rec.violation(op["op"], "receiver-changed", one, "receiver changed by a refused call")
+                return
+            continue
         try:
             out = apply(d, op, n, kinds)
         except Exception as e:
